@@ -110,8 +110,8 @@ def run(ctx):
         n_t += len(ttr)
         traces += ttr
         from ..drivers import acct_vivo
-        vtr = acct_vivo.run_many(acct_vivo.specs(kind, ctx.pick(5, 100), ctx.seed + 1, first_id=tid + len(ttr) + 1,
-                                                   minutes=ctx.pick((60, 90), (60, 90, 120))))
+        vtr = acct_vivo.run_many(acct_vivo.specs(kind, ctx.pick(6, 100), ctx.seed + 1, first_id=tid + len(ttr) + 1,
+                                                   minutes=ctx.pick((60, 90), (60, 90, 120)), multi=True))
         n_v += len(vtr)
         n_vev += sum(len(t["ev"]) for t in vtr)
         for t in vtr:
